@@ -25,14 +25,15 @@ const modPath = "github.com/goatcms/goatcore"
 
 // Prog is the loaded, type-checked program plus its SSA form.
 type Prog struct {
-	Repo   string
-	Fset   *token.FileSet
-	Pkgs   []*packages.Package          // module packages (roots)
-	ByPath map[string]*packages.Package // every loaded package incl. deps
-	SSA    *ssa.Program
-	NFiles int
-	NFuncs int
-	Config string // GOOS/GOARCH/tags description
+	AnchorNotes []string
+	Repo        string
+	Fset        *token.FileSet
+	Pkgs        []*packages.Package          // module packages (roots)
+	ByPath      map[string]*packages.Package // every loaded package incl. deps
+	SSA         *ssa.Program
+	NFiles      int
+	NFuncs      int
+	Config      string // GOOS/GOARCH/tags description
 }
 
 type LoadOpts struct {
@@ -101,6 +102,7 @@ func Load(o LoadOpts) (*Prog, error) {
 	if p.Config == "" {
 		p.Config = "default (linux/amd64, no tags)"
 	}
+	p.AnchorNotes = resolveAnchors(p)
 	return p, nil
 }
 
@@ -129,7 +131,11 @@ type Ctx struct {
 }
 
 func NewCtx(p *Prog, prop string) *Ctx {
-	return &Ctx{P: p, Prop: prop, Stats: map[string]int{}, seen: map[string]bool{}}
+	c := &Ctx{P: p, Prop: prop, Stats: map[string]int{}, seen: map[string]bool{}}
+	for _, n := range p.AnchorNotes {
+		c.Note("%s", n)
+	}
+	return c
 }
 
 func (c *Ctx) pos(p token.Pos) string {
